@@ -485,6 +485,7 @@ pub fn check_trace(s: &Script, tr: &Trace, rep: &mut Report) -> Outcome {
         let prev_policy: HashMap<u64, i64> = if oi == 0 { HashMap::new() } else { tr.obs[oi - 1].snap.costs.iter().cloned().collect() };
         let mut admitted = new_admission.is_some();
         let mut room_evictions: Vec<(u64, i64)> = Vec::new();
+        let mut unexpired_room_evictions = 0u64;
         for ev in o.events.iter() {
             match &ev.kind {
                 EvKind::Cb { kind, id, key, index, conflict: _, cost } => {
@@ -549,6 +550,13 @@ pub fn check_trace(s: &Script, tr: &Trace, rep: &mut Report) -> Outcome {
                                         let _ = ne;
                                         out.evicted_for_room += 1;
                                         room_evictions.push((*index, e.charge));
+                                        if !is_expired {
+                                            unexpired_room_evictions += 1;
+                                        }
+                                    } else if is_expired {
+                                        // an entry whose TTL has elapsed may be reclaimed at any time, not only by a tick
+                                        out.reclaimed += 1;
+                                        rep.count("ls_expired_entries_reclaimed_outside_a_tick");
                                     } else {
                                         fail!("C04", "evict/without-cause", "on_evict(#{id:x}) for key {key} in a step that neither admits a new key nor ticks ({})", step.short());
                                     }
@@ -587,7 +595,10 @@ pub fn check_trace(s: &Script, tr: &Trace, rep: &mut Report) -> Outcome {
         // C07 "evicted one at a time only while room is still lacking": whichever victim the policy took
         // last, room was still lacking without it; so with all victims gone the room may not reach the
         // cost of the dearest of them (the callbacks need not come in the order of selection)
-        if let (Some((_, ne)), false) = (&new_admission, room_evictions.is_empty()) {
+        // (entries whose TTL had elapsed may leave in an admission step for either reason - as victims or
+        // because the code reclaims what has expired when it needs room -, so a step whose victims had all
+        // expired decides nothing, and they count among the candidates for "the one taken last")
+        if let (Some((_, ne)), true) = (&new_admission, unexpired_room_evictions > 0) {
             let final_room = max_cost as i128 - (used_model + ne.charge as i128);
             let dearest = room_evictions.iter().map(|v| prev_policy.get(&v.0).copied().unwrap_or(v.1) as i128).max().unwrap_or(0);
             if final_room - dearest >= 0 {
